@@ -337,14 +337,14 @@ theorem names_abstraction_ok :
     (∀ p ∈ Gen.D2.markSites, ((V2.lvlMs p.1).find? (fun m => m.spec.name == p.2)).isSome = true) := markSites_ok
 
 /-- the obligation under which `errs.Wrap(cvsserr.ErrX, …)` is the constructor `.x` of `Err` and `errs.Is` is equality of
-    constructors: the package-level variables of /repo/cvsserr are exactly the model's eleven sentinels, and every one is its
-    own `errors.New(<literal>)` value (no second name for a value, no sentinel defined in terms of another) -/
+    constructors: each of the model's eleven sentinels is a package-level variable of /repo/cvsserr initialised by its own
+    `errors.New(<literal>)` call (so no two of them are one value and none is defined in terms of another); further variables
+    in that package are harmless (a function that returned one would be outside the translators' vocabulary) -/
 theorem sentinels_are_distinct_values :
     (∀ e : Err, e ∈ Err.all) ∧
-    (∀ e ∈ Err.all, ("Err" ++ e.tag) ∈ Gen.Errs.sentinels.map (·.1)) ∧
-    Gen.Errs.sentinels.length = Err.all.length ∧
-    (∀ s ∈ Gen.Errs.sentinels, s.2.1 = "new") := by
-  refine ⟨fun e => by cases e <;> decide, ?_, ?_, ?_⟩ <;> decide
+    (∀ e ∈ Err.all, ("Err" ++ e.tag, "new") ∈ Gen.Errs.sentinels.map (fun s => (s.1, s.2.1))) ∧
+    (Gen.Errs.sentinels.map (·.1)).Nodup := by
+  refine ⟨fun e => by cases e <;> decide, ?_, ?_⟩ <;> decide
 
 /-- non-vacuity: the translated decoder really decodes -/
 example : (Gen.D3.Base_Decode Gen.D3.NewBase b!"CVSS:3.1/AV:N/AC:L/PR:N/UI:N/S:U/C:H/I:H/A:H").map (fun r => r.2) = some (true, none) ∧
